@@ -6,6 +6,7 @@ use std::io::{BufRead, Write};
 mod c02;
 mod c04;
 mod c08;
+mod c18;
 pub mod util;
 
 fn main() {
@@ -42,6 +43,7 @@ fn run_lines() {
             "range" => c08::range(&mut t),
             "book" => c02::book(&mut t),
             "needs" => c04::needs(&mut t),
+            "members" => c18::members(&mut t),
             _ => format!("ERR unknown-kind {kind}"),
         }));
         match res {
